@@ -1,8 +1,232 @@
-(* Props/C07.v — preliminary *)
-From Coq Require Import List NArith Bool.
+(* Props/C07.v — Names and overloaded calls resolve as the VHDL visibility rules dictate.
+   Statements only: each theorem is closed by `exact` of a lemma proved in Mini/ScopeProofs.v,
+   the main ones are pinned by `Check`, each is followed by `Print Assumptions`.
+
+   Model      Mini/ScopeImpl.v (scope.rs, region.rs, visibility.rs; elaborator = order of the scope
+              operations in design_unit.rs / declarative.rs / subprogram.rs), Mini/Overload.v
+              (overloaded.rs `disambiguate*`, expression.rs `disambiguate_op`, names.rs use sites)
+   Spec       Mini/Scope.v (`denotes`, `resolve`): LRM 12.3 / 12.4 on the scoped/overloaded family
+   The model is tied to the code, and the specification to the implementation, by checks/c07.py. *)
+From Coq Require Import List NArith Bool Permutation.
 Import ListNotations.
 From RH Require Import Mini.Scope Mini.Overload Mini.ScopeImpl Mini.ScopeProofs.
 Open Scope N_scope.
-Example C07_smoke : is_int (TInt 0) = true.
-Proof. reflexivity. Qed.
-Print Assumptions C07_smoke.
+
+(* ---------------------------------------------------------------------------------------------
+   1. The lookup cache.  For every sequence of scope operations that follows the analysis
+   discipline (`disciplined`: scopes are used as a stack; a designator is not looked up in a nested
+   scope whose clone of the cache may be stale because an ancestor was mutated after the clone
+   and the entry was not dropped), whenever the discipline permits to look d up after the trace,
+   the cached `lookup` returns exactly `lookup_uncached`. *)
+Theorem C07_cache_coherent :
+  forall t d s rs,
+    disciplined [] (t ++ [OLookup d]) -> run cfg_now [] t = Some (s, rs) ->
+    exists s', lookup s d = Some (lookup_uncached s d, s').
+Proof. exact cache_coherent. Qed.
+
+(* the invariant behind it, for any configuration that invalidates on add and clears on use *)
+Theorem C07_cache_invariant :
+  forall c st s o st' s' res,
+    cfg_sound c -> coherent st s -> dstep st o = Some st' -> exec c s o = Some (s', res) ->
+    coherent st' s' /\ (forall d, o = OLookup d -> res = Some (lookup_uncached s d)).
+Proof. exact coherent_step. Qed.
+
+(* `disciplined_b` (run by the check on the trace of every generated program) decides the predicate *)
+Theorem C07_discipline_decidable : forall t st, disciplined_b st t = true <-> disciplined st t.
+Proof. exact disciplined_b_sound. Qed.
+
+(* the traces to which the theorem is applied: whatever program the elaborator (the order of scope
+   operations of design_unit.rs / declarative.rs / subprogram.rs as of b25a4b2) processes, its trace
+   follows the discipline; hence every lookup it performs equals lookup_uncached at that moment *)
+Theorem C07_elaborator_disciplined :
+  forall p m, model_program cfg_now p = Some m -> disciplined [] (m_trace m).
+Proof. exact elaborator_disciplined. Qed.
+
+Theorem C07_elaborator_cache_coherent :
+  forall p m t d rest s rs,
+    model_program cfg_now p = Some m -> m_trace m = t ++ OLookup d :: rest ->
+    run cfg_now [] t = Some (s, rs) -> exists s', lookup s d = Some (lookup_uncached s d, s').
+Proof. exact elaborator_cache_coherent. Qed.
+
+(* the mechanism is needed: WITHOUT the invalidation in `ScopeInner::add` a disciplined trace
+   (declare f(integer); look f up; declare f(boolean); look f up) reads a stale cache entry *)
+Theorem C07_cache_no_invalidation_refuted :
+  exists t d s rs r s',
+    disciplined [] (t ++ [OLookup d]) /\ run cfg_no_add_invalidation [] t = Some (s, rs) /\
+    lookup s d = Some (r, s') /\ r <> lookup_uncached s d.
+Proof. exact no_add_invalidation_refuted. Qed.
+
+Example C07_cache_invalidation_example :
+  exists s rs, run cfg_now [] [ORoot region_empty; OAdd 0 e_f_int; OLookup 0; OAdd 0 e_f_bool] = Some (s, rs) /\
+               exists s', lookup s 0 = Some (LOk (NOver [e_f_int; e_f_bool]), s').
+Proof. exact add_invalidation_example. Qed.
+
+(* finding F21 (fixed by 2dc9b83): the pre-fix make_potentially_visible left the candidates of a
+   literal stale when a use clause named its type; the code of today agrees with the specification
+   on the same program and its trace follows the discipline *)
+Theorem C07_cache_stale_implicit_old_refuted :
+  family_program prog_f21 = true /\
+  spec_program prog_f21 = [(1, ADecl 6); (2, ADecl 2); (3, ADecl 3); (4, ADecl 7)] /\
+  observed cfg_old_mpv prog_f21 =
+    Some ([(1, Some 6, MOk); (2, None, MError); (3, Some 3, MOk); (4, Some 7, MOk)],
+          [(1, Some 6, MOk); (2, Some 2, MOk); (3, Some 3, MOk); (4, Some 7, MOk)]) /\
+  observed cfg_now prog_f21 =
+    Some ([(1, Some 6, MOk); (2, Some 2, MOk); (3, Some 3, MOk); (4, Some 7, MOk)],
+          [(1, Some 6, MOk); (2, Some 2, MOk); (3, Some 3, MOk); (4, Some 7, MOk)]) /\
+  trace_disciplined cfg_now prog_f21 = Some true.
+Proof. exact stale_implicit_old_refuted. Qed.
+
+(* finding F22 (fixed by b25a4b2): the nested scope of a subprogram body kept the clone of a stale
+   entry for the subprogram's own name; the pre-fix trace leaves the discipline *)
+Theorem C07_cache_stale_nested_old_refuted :
+  family_program prog_f22 = true /\
+  spec_program prog_f22 = [(1, ADecl 3); (2, ADecl 5); (3, ADecl 3); (4, ADecl 5)] /\
+  observed cfg_old_body prog_f22 =
+    Some ([(1, Some 3, MOk); (2, Some 3, MError); (3, Some 3, MOk); (4, Some 5, MOk)],
+          [(1, Some 3, MOk); (2, Some 5, MOk); (3, Some 3, MOk); (4, Some 5, MOk)]) /\
+  trace_disciplined cfg_old_body prog_f22 = Some false /\
+  observed cfg_now prog_f22 =
+    Some ([(1, Some 3, MOk); (2, Some 5, MOk); (3, Some 3, MOk); (4, Some 5, MOk)],
+          [(1, Some 3, MOk); (2, Some 5, MOk); (3, Some 3, MOk); (4, Some 5, MOk)]) /\
+  trace_disciplined cfg_now prog_f22 = Some true.
+Proof. exact stale_nested_old_refuted. Qed.
+
+(* ---------------------------------------------------------------------------------------------
+   2. `lookup_uncached` on the scope chain the analyser has built at a program point
+   (`point_scope`: Region::add / make_all_potentially_visible / make_potentially_visible applied to
+   the items of the enclosing region prefixes) equals `Scope.denotes`, up to the order in which
+   overloaded candidates are listed.  Hypotheses `wf_point` = the family: no duplicate declarations
+   of d in a region or used package, entity ids identify entities, and NOT the excluded corner
+   (two potentially visible subprograms with equal profiles).  Character-literal EXPRESSION sites
+   are outside: the analyser does not look them up at all (C07_char_literal_refuted). *)
+Theorem C07_lookup_refines_spec :
+  forall pkgs ch d, wf_point pkgs ch d ->
+    res_equiv (lookup_uncached (point_scope pkgs ch) d) (denotes pkgs ch d).
+Proof. exact lookup_refines_spec. Qed.
+
+(* the hypotheses are satisfiable by a non-trivial point: 3 regions below the context clause,
+   directly visible functions in two of them, `use p1.all` and `use p2.t1` bringing a function and
+   two literals: five candidates for v0 *)
+Example C07_wf_point_satisfiable :
+  wf_point ex_pkgs ex_chain 0 /\
+  denotes ex_pkgs ex_chain 0 =
+    DOver [mkEnt 31 0 (KFunc t_boolean t_integer) None; mkEnt 33 0 (KFunc t_integer t_integer) None;
+           mkEnt 22 0 (KLit (TOth 11)) None; mkEnt 12 0 (KLit (TOth 10)) None;
+           mkEnt 14 0 (KFunc t_integer t_boolean) None].
+Proof. exact (conj ex_wf_point (proj1 ex_point_values)). Qed.
+
+(* ---------------------------------------------------------------------------------------------
+   3. Overload resolution.  What a use site observes (reference set by the staged `disambiguate`,
+   `disambiguate_op`, `disambiguate_no_actuals`; error class) agrees with "the unique candidate
+   whose parameter and result types fit": exactly one fitting candidate => it is the reference and
+   there is no error; none => error; several => ambiguity error. *)
+Theorem C07_disambiguate_unique :
+  forall es a t,
+    forallb overloadable es = true -> NoDup (map profile es) ->
+    match filter (cand_fits (UCall a t)) es with
+    | [e] => disambiguate es a (Some t) = Unambiguous e
+    | [] => forall e, disambiguate es a (Some t) = Unambiguous e -> In e es /\ cand_fits (UCall a t) e = false
+    | x :: y :: r => disambiguate es a (Some t) = Ambiguous (x :: y :: r)
+    end.
+Proof. exact disambiguate_unique. Qed.
+
+Theorem C07_site_result_refines_resolve :
+  forall d u r r', look_equiv r r' -> in_fragment d u r' -> agrees (site_result d u r) (resolve r' u).
+Proof. exact site_result_refines_resolve. Qed.
+
+(* dropping the return-type stage loses a unique fit (would-catch mutation of overloaded.rs) *)
+Theorem C07_stage_dropped_refuted :
+  let es := [mkEnt 1 0 (KFunc t_integer t_integer) None; mkEnt 2 0 (KFunc t_integer t_boolean) None] in
+  filter (cand_fits (UCall AUniv t_integer)) es = [mkEnt 1 0 (KFunc t_integer t_integer) None] /\
+  disambiguate es AUniv (Some t_integer) = Unambiguous (mkEnt 1 0 (KFunc t_integer t_integer) None) /\
+  disambiguate_no_return_stage es AUniv (Some t_integer) = Ambiguous es.
+Proof. exact stage_dropped_refuted. Qed.
+
+(* ---------------------------------------------------------------------------------------------
+   4. End to end at a program point: the reference and error class the model of the analyser
+   observes at a use site (through `lookup_uncached`, hence by C07_cache_coherent through `lookup`
+   on disciplined traces) agree with the answer of the reference resolver. *)
+Theorem C07_resolution_refines_spec :
+  forall pkgs ch d u,
+    wf_point pkgs ch d -> site_in_fragment d u (denotes pkgs ch d) ->
+    agrees (site_result d u (looked_of (lookup_uncached (point_scope pkgs ch) d)))
+           (resolve (denotes pkgs ch d) u).
+Proof. exact resolution_refines_spec. Qed.
+
+(* finding F23 (open): character literals in expressions are not looked up: an invisible literal is
+   accepted (site 1) and a visible one gets no reference (site 2) *)
+Theorem C07_char_literal_refuted :
+  family_program prog_charlit = true /\
+  spec_program prog_charlit = [(1, AError); (2, ADecl 2); (3, AError)] /\
+  observed cfg_now prog_charlit =
+    Some ([(1, None, MOk); (2, None, MOk); (3, None, MError)],
+          [(1, None, MOk); (2, None, MOk); (3, None, MError)]).
+Proof. exact char_literal_refuted. Qed.
+
+(* ---------------------------------------------------------------------------------------------
+   Examples (whole programs through the reference resolver and through the elaborator) *)
+(* 3-deep nesting: architecture constant v0 <- block function v0 (hides it) <- process constant v0 *)
+Example C07_example_nesting :
+  family_program prog_nest3 = true /\
+  spec_program prog_nest3 = [(1, ADecl 3); (2, ADecl 4); (3, AError); (4, ADecl 6); (5, AError)] /\
+  observed cfg_now prog_nest3 =
+    Some ([(1, Some 3, MOk); (2, Some 4, MOk); (3, None, MError); (4, Some 6, MOk); (5, Some 6, MError)],
+          [(1, Some 3, MOk); (2, Some 4, MOk); (3, None, MError); (4, Some 6, MOk); (5, Some 6, MError)]).
+Proof. exact example_nest3. Qed.
+
+(* a homograph pair made visible by two use clauses conflicts; a direct declaration wins *)
+Example C07_example_homograph_pair :
+  family_program prog_homograph = true /\
+  spec_program prog_homograph =
+    [(1, AConflict); (2, AConflict); (3, ADecl 5); (4, AConflict); (5, AConflict); (6, AConflict); (7, AUndeclared)] /\
+  observed cfg_now prog_homograph =
+    Some ([(1, None, MConflict); (2, None, MConflict); (3, Some 5, MOk); (4, None, MConflict);
+           (5, None, MConflict); (6, None, MConflict); (7, None, MUndeclared)],
+          [(1, None, MConflict); (2, None, MConflict); (3, Some 5, MOk); (4, None, MConflict);
+           (5, None, MConflict); (6, None, MConflict); (7, None, MUndeclared)]).
+Proof. exact example_homograph. Qed.
+
+(* overloaded literals over two enumeration types (and a function of the same name) *)
+Example C07_example_overloaded_literals :
+  family_program prog_twolits = true /\
+  spec_program prog_twolits =
+    [(1, ADecl 2); (2, ADecl 6); (3, AError); (4, AError); (5, ADecl 9); (6, AError); (7, ADecl 4); (8, ADecl 8); (9, AError)] /\
+  observed cfg_now prog_twolits =
+    Some ([(1, Some 2, MOk); (2, Some 6, MOk); (3, None, MError); (4, None, MError); (5, Some 9, MOk);
+           (6, Some 9, MError); (7, Some 4, MOk); (8, Some 8, MOk); (9, None, MError)],
+          [(1, Some 2, MOk); (2, Some 6, MOk); (3, None, MError); (4, None, MError); (5, Some 9, MOk);
+           (6, Some 9, MError); (7, Some 4, MOk); (8, Some 8, MOk); (9, None, MError)]).
+Proof. exact example_twolits. Qed.
+
+Check C07_cache_coherent :
+  forall t d s rs,
+    disciplined [] (t ++ [OLookup d]) -> run cfg_now [] t = Some (s, rs) ->
+    exists s', lookup s d = Some (lookup_uncached s d, s').
+Check C07_lookup_refines_spec :
+  forall pkgs ch d, wf_point pkgs ch d ->
+    res_equiv (lookup_uncached (point_scope pkgs ch) d) (denotes pkgs ch d).
+Check C07_resolution_refines_spec :
+  forall pkgs ch d u,
+    wf_point pkgs ch d -> site_in_fragment d u (denotes pkgs ch d) ->
+    agrees (site_result d u (looked_of (lookup_uncached (point_scope pkgs ch) d)))
+           (resolve (denotes pkgs ch d) u).
+
+Print Assumptions C07_cache_coherent.
+Print Assumptions C07_cache_invariant.
+Print Assumptions C07_discipline_decidable.
+Print Assumptions C07_elaborator_disciplined.
+Print Assumptions C07_elaborator_cache_coherent.
+Print Assumptions C07_cache_no_invalidation_refuted.
+Print Assumptions C07_cache_invalidation_example.
+Print Assumptions C07_cache_stale_implicit_old_refuted.
+Print Assumptions C07_cache_stale_nested_old_refuted.
+Print Assumptions C07_lookup_refines_spec.
+Print Assumptions C07_wf_point_satisfiable.
+Print Assumptions C07_disambiguate_unique.
+Print Assumptions C07_site_result_refines_resolve.
+Print Assumptions C07_stage_dropped_refuted.
+Print Assumptions C07_resolution_refines_spec.
+Print Assumptions C07_char_literal_refuted.
+Print Assumptions C07_example_nesting.
+Print Assumptions C07_example_homograph_pair.
+Print Assumptions C07_example_overloaded_literals.
